@@ -63,6 +63,11 @@ def handleIO (op : String) (args impl : List String) : Verdict :=
       | "open-ext" => if (Dispatch.openCodec (Dispatch.lowerExt ext)).isSome then "dispatched" else "invalid-extension"
       | _ => "?"
     compare expected (" ".intercalate impl) fun _ => false
+  | "tot.read", _ | "tot.write", _ =>
+    -- a value or an error: never a panic, never a timeout
+    let i := " ".intercalate impl
+    compare "total" (if i = "ok" || i = "err" then "total" else i) fun _ => false
+  | "tot.scale", _ => compare "linear" (impl.headD "") fun _ => false
   | "det.write", _ =>
     -- the harness wrote the list 50 times in all writer orders and snapshotted it: the answer must start with `same`
     compare "same" (impl.headD "") fun _ => false
